@@ -66,7 +66,21 @@ fn compare(acc: &mut Acc, reg: &Registry, s: &dyn Subject, base: &Ov, base_run: 
         }
         m
     };
-    if !same_value || report_multiset(base_run) != report_multiset(&r) || held(base_run) != held(&r) {
+    // ... and neither do the hand-overs: a report made below is received by every enclosing level through
+    // `merge(.., location)`; which reports arrive where is fixed by the types, not by the enumeration order
+    let handed = |run: &Run| -> BTreeMap<(String, Path, Path), u32> {
+        let by_id = reports_by_id(run);
+        let mut m = BTreeMap::new();
+        for mg in run.merges() {
+            for h in &mg.other_holding {
+                if let Some(rep) = by_id.get(h) {
+                    *m.entry((obs_digest(&rep.kind), rep.loc.clone(), mg.loc.clone())).or_insert(0) += 1;
+                }
+            }
+        }
+        m
+    };
+    if !same_value || report_multiset(base_run) != report_multiset(&r) || held(base_run) != held(&r) || handed(base_run) != handed(&r) {
         acc.violation(
             format!("C15/member-order-changed-the-outcome/{}", ctor(&reg.defs, s.ty())),
             "permuting object members changed the value or the report multiset",
@@ -158,7 +172,7 @@ pub fn run(ctx: &Ctx, reg: &Registry) -> i32 {
         acc,
         Finish {
             level: "exploration",
-            rule: "metamorphic, no reference model: for every generated payload (all subjects, faulty and fault-free) and every object in it with >= 2 members, ALL permutations of its members when it has <= 5 of them (24 random ones beyond), one object at a time, plus joint random shuffles of all objects at every depth; presented through the order preserving instrumented source under the keep-going script. Oracle: equal Ok projections, equal multisets of (report digest, location) received by the error type, and equal multisets held by the returned error. Non-trivial = every permuted run; distinct = (subject, trace shape, permuted payload).".into(),
+            rule: "metamorphic, no reference model: for every generated payload (all subjects, faulty and fault-free) and every object in it with >= 2 members, ALL permutations of its members when it has <= 5 of them (24 random ones beyond), one object at a time, plus joint random shuffles of all objects at every depth; presented through the order preserving instrumented source under the keep-going script. Oracle: equal Ok projections, equal multisets of (report digest, location) received by the error type, equal multisets held by the returned error, and equal multisets of (report, hand-over location) pairs. Non-trivial = every permuted run; distinct = (subject, trace shape, permuted payload).".into(),
             exhaustive: false,
             assumptions: vec!["payload keys are unique and map keys parse to distinct values (otherwise last-wins makes order legitimately observable)".into()],
         },
